@@ -58,9 +58,9 @@ impl ScopeValue {
 	pub(crate) fn deserialize(read: &mut impl io::Read) -> FResult<Self> {
 		Ok(Self::LazyVariable(Expr::deserialize(read)?, {
 			if bool::deserialize(read)? {
-				None
-			} else {
 				Some(Arc::new(Scope::deserialize(read)?))
+			} else {
+				None
 			}
 		}))
 	}
@@ -117,9 +117,9 @@ impl Scope {
 			value: ScopeValue::deserialize(read)?,
 			inner: {
 				if bool::deserialize(read)? {
-					None
-				} else {
 					Some(Arc::new(Self::deserialize(read)?))
+				} else {
+					None
 				}
 			},
 		})
